@@ -8,6 +8,7 @@ import (
 	"os/exec"
 	"path/filepath"
 	"runtime"
+	"runtime/pprof"
 	"sort"
 	"strconv"
 	"strings"
@@ -35,6 +36,11 @@ func main() {
 	known := flag.String("known", "/verif/known_findings.json", "known findings file")
 	verbose := flag.Bool("v", false, "verbose")
 	flag.Parse()
+	if pf := os.Getenv("VERIF_PROF"); pf != "" {
+		f, _ := os.Create(pf)
+		pprof.StartCPUProfile(f)
+		defer pprof.StopCPUProfile()
+	}
 	if v := os.Getenv("VERIF_TIER"); v != "" && *tier == "quick" {
 		if v == "thorough" {
 			*tier = v
@@ -192,6 +198,7 @@ func main() {
 	if exit == 0 {
 		fmt.Printf("OK property=%s tier=%s paths=%d assertions_unsat=%d assertions_constant=%d queries=%d wall=%.1fs\n", cfg.ID, *tier, ev.Paths, ev.Asserts, ev.Trivial, ev.Queries, ev.WallS)
 	}
+	pprof.StopCPUProfile()
 	os.Exit(exit)
 }
 
